@@ -13,7 +13,16 @@ MinI(a, b) == IF a <= b THEN a ELSE b
 RECURSIVE GcdI(_, _)
 GcdI(a, b) == IF b = 0 THEN a ELSE GcdI(b, a % b)
 
+\* Out-of-range marker.  TLC integers are 32 bit and TLC aborts on overflow, so every product is guarded: operands
+\* beyond Lim (or an OOR operand) give OOR, which propagates; a specification state that ever held an OOR value is
+\* classified out_of_model by the trace validator instead of letting TLC abort the whole batch.
+OOR == <<0, 0>>
+IsOOR(a) == a[2] = 0
+Lim == 30000
+Big(a) == a[2] = 0 \/ AbsI(a[1]) > Lim \/ a[2] > Lim
+
 RNorm(n, d) ==
+  IF d = 0 THEN OOR ELSE
   IF n = 0 THEN <<0, 1>>
   ELSE LET g == GcdI(AbsI(n), AbsI(d))
            s == IF d < 0 THEN -1 ELSE 1
@@ -22,16 +31,18 @@ RNorm(n, d) ==
 R(n)        == <<n, 1>>
 RZero       == <<0, 1>>
 ROne        == <<1, 1>>
-RAdd(a, b)  == IF a[2] = 1 /\ b[2] = 1 THEN <<a[1] + b[1], 1>>
+RAdd(a, b)  == IF Big(a) \/ Big(b) THEN OOR
+               ELSE IF a[2] = 1 /\ b[2] = 1 THEN <<a[1] + b[1], 1>>
                ELSE RNorm(a[1] * b[2] + b[1] * a[2], a[2] * b[2])
 RNeg(a)     == <<-a[1], a[2]>>
 RSub(a, b)  == RAdd(a, RNeg(b))
-RMul(a, b)  == IF a[2] = 1 /\ b[2] = 1 THEN <<a[1] * b[1], 1>>
+RMul(a, b)  == IF Big(a) \/ Big(b) THEN OOR
+               ELSE IF a[2] = 1 /\ b[2] = 1 THEN <<a[1] * b[1], 1>>
                ELSE RNorm(a[1] * b[1], a[2] * b[2])
-RInv(a)     == IF a[1] < 0 THEN <<-a[2], -a[1]>> ELSE <<a[2], a[1]>>   \* a # 0
+RInv(a)     == IF a[1] = 0 THEN OOR ELSE IF a[1] < 0 THEN <<-a[2], -a[1]>> ELSE <<a[2], a[1]>>
 RDiv(a, b)  == RMul(a, RInv(b))
-RLt(a, b)   == a[1] * b[2] < b[1] * a[2]
-RLe(a, b)   == a[1] * b[2] <= b[1] * a[2]
+RLt(a, b)   == IF Big(a) \/ Big(b) THEN FALSE ELSE a[1] * b[2] < b[1] * a[2]
+RLe(a, b)   == IF Big(a) \/ Big(b) THEN FALSE ELSE a[1] * b[2] <= b[1] * a[2]
 RIsZero(a)  == a[1] = 0
 RSign(a)    == IF a[1] > 0 THEN 1 ELSE IF a[1] < 0 THEN -1 ELSE 0
 RAbs(a)     == <<AbsI(a[1]), a[2]>>
